@@ -19,6 +19,11 @@ theorem inv_of_ref {x : M TState} {y : M State} {Q : State → Prop} {ts' : TSta
 
 theorem TInv.mk' {ts : TState} (hi : Inv ts.s) (h : TS [] ts) : TInv ts := ⟨hi, h.tree, h.side⟩
 
+/-- a step of `Sched` that the tree layer does not see keeps the tree part of the invariant -/
+theorem TS.sframe {X : List (ScqId × List Nat)} {ts : TState} {s' : State} (h : TS X ts) (hf : SFrame ts.s s') :
+    TS X (ts.setS s') :=
+  ⟨TreeOK.of_sframe h.tree hf, h.side.of_sframe hf⟩
+
 /-- `task.complete` keeps the tree part of the invariant -/
 def CompleteOK : Prop :=
   ∀ (h : Hints) (x : Extras) (ts ts' : TState) (tid : Nat) (r : Resp) (bw : Bool),
